@@ -249,6 +249,42 @@ def dump_rules(P, R):
                     % (file_ok, str_ok), file=dr["file"], line=gen_str[0][1], function=dr["q"])
 
 
+def dump_request_rule(P, R):
+    """The dump file is written first (dump_entities -> dump_ostream, which ends the request), then the dump string from the
+    request do_run saved before.  Both sinks must see the SAME request - bin list, -append, file name: the saved dumper is put
+    back as a whole (`dump_info = dump_info_save`), and the generator dump_ostream switches off nothing but the bin list
+    (a generator that also cleared -append, or a restore of the bin list only, makes the string replace where the file
+    appends)."""
+    R.rule("C09.dumpreq", "the dump string is generated from the whole saved request; dump_ostream ends the request by clearing the bin list only", minimum=2)
+    dr = P.one("IPhreeqc::do_run")
+    whole = []
+    partial = []
+    for x in T.walk(dr["body"]):
+        if x[0] == "Call" and T.callee_name(x) == "operator=" and "dump_info" in T.text(x) and "dump_info_save" in T.text(x):
+            whole.append(x[1])
+        if x[0] == "Call" and T.callee_name(x).startswith("Set_") and "dump_info" in T.text(x[3] if T.is_node(x[3]) else x) and "dump_info_save" in T.text(x):
+            partial.append((x[1], T.callee_name(x)))
+    gen = [c for c in T.calls(dr["body"]) if T.callee_q(c) == "Phreeqc::dump_ostream"]
+    if not gen:
+        R.anchor_missing("C09.dumpreq", "do_run no longer calls dump_ostream")
+        return
+    if whole and min(whole) < gen[0][1] and not partial:
+        R.ok("C09.dumpreq", "do_run:restore", "dump_info = dump_info_save (line %d) before the string is generated" % min(whole))
+    else:
+        R.violation("C09.dumpreq", "do_run:restore", "the request used for the dump string is not the whole saved request (%s): options such as -append that the file pass consumed or changed "
+                    "are not the same for the string" % ("partial restore %s" % partial if partial else "no restore before dump_ostream"), file=dr["file"], line=gen[0][1], function=dr["q"])
+    do = P.one("Phreeqc::dump_ostream")
+    sets = [(T.callee_name(c), c[1]) for c in T.calls(do["body"]) if T.is_node(c[3]) and "dump_info" in T.text(c[3]) and T.callee_name(c).startswith("Set")]
+    other = [s_ for s_ in sets if s_[0] != "SetAll"]
+    if sets and not other:
+        R.ok("C09.dumpreq", "dump_ostream:end-of-request", "clears the bin list only")
+    elif other:
+        R.violation("C09.dumpreq", "dump_ostream:end-of-request", "dump_ostream also changes %s of the request: the second sink, generated from the same request, no longer sees the option the first "
+                    "one used" % ", ".join(o[0] for o in other), file=do["file"], line=other[0][1], function=do["q"])
+    else:
+        R.anchor_missing("C09.dumpreq", "dump_ostream no longer ends the request with SetAll(false)")
+
+
 # ------------------------------------------------------------------------------------------ rebuild of line vectors
 
 def rebuild_rules(P, R):
@@ -309,6 +345,7 @@ def rebuild_rules(P, R):
             R.ok("C09.rebuild", inst, "rebuilt from %s in %s" % (string.split("::")[-1], got[0][0]))
     rebuild_reach_rule(P, R, found)
     openfirst_rule(P, R)
+    dump_request_rule(P, R)
 
 
 def openfirst_rule(P, R):
